@@ -401,7 +401,9 @@ PROPS = {
     },
     "C08": {
         "module": 'MF.Props.C08Types',
-        "theorems": ['MF.Props.C08.type_sound',
+        "module_extra": ['MF.Props.C08TypeGo'],
+        "theorems": ['MF.Props.C08.simpleTypes_translated', 'MF.Props.C08.parseType_dispatch_translated', 'MF.Props.C08.parseType_model_dispatch',
+            'MF.Props.C08.type_sound',
             'MF.Props.C08.type_sound_top',
             'MF.Props.C08.type_complete',
             'MF.Props.C08.type_complete_tree',
